@@ -315,6 +315,9 @@ class LoopCtl:
             run.assume((i >= 0) & (i < n))
             self.cur = self.spec.iter_state(self, i)
             run.oblige(self.label("reach"), SBool(True), kind="cover", expect="sat")
+            # frame of the loop: from here to step() every in-place modification is logged
+            self.serial0 = sym.next_serial()
+            run.mut_log = []
             yield self.iterable.item(i)
         # generator exhausted: control continues after the loop
 
@@ -333,7 +336,40 @@ class LoopCtl:
     def state(self, names):
         return self._pick(self.cur, names)
 
+    def _frame_check(self, new_state):
+        """The contract summarises the loop by the values of the names its body assigns.  An object modified in
+        place during the generic iteration must therefore be (part of) the state the contract handed out, be bound
+        to one of those names afterwards, or have been created inside the iteration; anything else -- an array of
+        the enclosing scope written through a nested function, say -- is an effect the summary would silently
+        drop: the loop cannot be summarised by this contract (undecided, never a verdict)."""
+        log, self.run.mut_log = (self.run.mut_log or []), None
+        if not log:
+            return
+        tracked = []
+
+        def collect(v, depth=0):
+            if depth > 4:
+                return
+            tracked.append(v)
+            if isinstance(v, (list, tuple)):
+                for x in v:
+                    collect(x, depth + 1)
+            elif isinstance(v, dict):
+                for x in v.values():
+                    collect(x, depth + 1)
+        for st in (self.cur or {}, new_state or {}):
+            for v in st.values():
+                collect(v)
+        for obj in log:
+            if getattr(obj, "serial", 0) > self.serial0:
+                continue
+            if any(obj is t for t in tracked):
+                continue
+            raise sym.Undecided("the body of loop %d of %s modifies in place an object (%s) that is not part of the state its "
+                                "contract summarises" % (self.ordinal, self.fname, getattr(obj, "name", None) or type(obj).__name__))
+
     def step(self, new_state):
+        self._frame_check(new_state)
         self.spec.on_step(self, new_state)
         raise EndPath()
 
